@@ -557,3 +557,96 @@ func (x *Ctx) mustHoldRec(ins ssa.Instruction, class, modes string, stack map[*s
 	}
 	return true, ""
 }
+
+func init() {
+	register(&Rule{ID: "L1.key", Min: 20, Text: "lock keys name what they lock: every argument of type key.Key handed to a lock-key constructor (a function of the server packages that returns sync.Key: DocKey, DocPullKey, SnapshotKey, …) is a document key — it is not computed from a types.ID (a conversion key.Key(docID), key.Key(docID.String())): a document id and a document key are both strings, a lock keyed by the id of the document is simply a different lock from the one every other handler takes for the same document; and, the other way round, an argument of type types.ID / DocRefKey is not computed from a key.Key",
+		Run: func(x *Ctx) {
+			keyT := x.P.Named("pkg/key.Key")
+			idT := x.P.Named("api/types.ID")
+			if keyT == nil || idT == nil {
+				x.C.Unresolved(x.id(), "key.Key / types.ID")
+				return
+			}
+			isSyncKey := func(t types.Type) bool {
+				n, ok := t.(*types.Named)
+				return ok && n.Obj().Name() == "Key" && n.Obj().Pkg() != nil && strings.HasSuffix(n.Obj().Pkg().Path(), "/sync")
+			}
+			n := 0
+			cnt := map[string]int{}
+			for _, fn := range x.P.ProdFuncs() {
+				for _, c := range prog.CallsIn(fn) {
+					o := prog.CallObj(c)
+					if o == nil || o.Pkg() == nil || !strings.Contains(o.Pkg().Path(), "/server/") {
+						continue
+					}
+					sig := o.Type().(*types.Signature)
+					if sig.Results().Len() != 1 || !isSyncKey(sig.Results().At(0).Type()) || sig.Recv() != nil {
+						continue
+					}
+					for i, a := range c.Common().Args {
+						var bad func(w ssa.Value) bool
+						what := ""
+						switch {
+						case isNamed(a.Type(), keyT):
+							what = "document key"
+							bad = func(w ssa.Value) bool { return isNamed(w.Type(), idT) }
+						case isNamed(a.Type(), idT):
+							what = "id"
+							bad = func(w ssa.Value) bool { return isNamed(w.Type(), keyT) }
+						default:
+							continue
+						}
+						n++
+						cnt[prog.FnName(fn)+o.Name()]++
+						// a conversion chain only (Convert/ChangeType, String(), phis): looking a key up by id in storage is fine
+						var conv func(v ssa.Value, d int) bool
+						seen := map[ssa.Value]bool{}
+						conv = func(v ssa.Value, d int) bool {
+							if v == nil || seen[v] || d > 10 {
+								return false
+							}
+							seen[v] = true
+							if bad(v) {
+								return true
+							}
+							switch t := v.(type) {
+							case *ssa.Convert:
+								return conv(t.X, d+1)
+							case *ssa.ChangeType:
+								return conv(t.X, d+1)
+							case *ssa.MakeInterface:
+								return conv(t.X, d+1)
+							case *ssa.Phi:
+								for _, e := range t.Edges {
+									if conv(e, d+1) {
+										return true
+									}
+								}
+							case *ssa.UnOp:
+								if al, ok := t.X.(*ssa.Alloc); ok {
+									for _, r := range *al.Referrers() {
+										if st, isSt := r.(*ssa.Store); isSt && st.Addr == ssa.Value(al) && conv(st.Val, d+1) {
+											return true
+										}
+									}
+								}
+							case *ssa.Call:
+								if o := prog.CallObj(t); o != nil && o.Name() == "String" && len(t.Call.Args) == 1 {
+									return conv(t.Call.Args[0], d+1)
+								}
+								if t.Call.IsInvoke() && t.Call.Method.Name() == "String" {
+									return conv(t.Call.Value, d+1)
+								}
+							}
+							return false
+						}
+						x.check(!conv(a, 0), fmt.Sprintf("func=%s key=%s#%d arg%d-is-a-%s", prog.FnName(fn), o.Name(), cnt[prog.FnName(fn)+o.Name()], i, strings.ReplaceAll(what, " ", "-")), x.pos(c),
+							"the "+what+" argument is not computed from the other identity space", "the "+what+" argument of "+o.Name()+" is computed from a value of the other identity space (document id vs document key): this handler takes a different lock from every other handler working on the same document")
+					}
+				}
+			}
+			if n < 20 {
+				x.C.Vacuous(x.id()+" key arguments", n, 20)
+			}
+		}})
+}
